@@ -41,6 +41,43 @@ Proof.
   exists h. repeat split; assumption.
 Qed.
 
+(* a position whose index the chain of redirects moves holds a placeholder or a define node; every
+   other physically stored node (in particular every call node of every layer) is read unchanged *)
+Lemma resolve_moved : forall c i, WFc c -> resolve c i <> i -> def_or_empty (raw c i).
+Proof.
+  induction c as [|l p IH]; intros i H Hr; [contradiction Hr; reflexivity|]. destruct H as [I H].
+  rewrite resolve_cons in Hr.
+  destruct (Nat.eq_dec (pre p i) i) as [Ep|Ep].
+  - rewrite Ep in Hr. destruct (redir_get_cases (l_redir l) i) as [E|E]; [contradiction|].
+    pose proof (proj1 (I_rok _ _ I) _ _ E) as [Hk _]. rewrite (raw_lt l p i Hk). apply (I_keys _ _ I _ _ E).
+  - unfold pre in Ep. destruct (Nat.ltb_spec i (size p)) as [Hlt|Hge]; [|contradiction Ep; reflexivity].
+    rewrite (raw_lt l p i Hlt). apply IH; assumption.
+Qed.
+
+Lemma get_node_raw_stable : forall c i, WFc c -> ~ def_or_empty (raw c i) -> get_node c i = raw c i.
+Proof.
+  intros c i H Hn. rewrite get_node_raw by (apply WFc_chain_ok; exact H).
+  destruct (Nat.eq_dec (resolve c i) i) as [E|E]; [rewrite E; reflexivity|].
+  exfalso. apply Hn. apply resolve_moved; assumption.
+Qed.
+
+(* the same for the call nodes as they are physically stored in the layers *)
+Theorem redirect_sound_raw : forall gm ops q d i f a dn,
+  run gm ops root0 = q ++ d ->
+  raw d i = NCall (FU f) a dn ->
+  get_node d i = NCall (FU f) a dn /\
+  exists h, get_head d (FU f, length a) = Some h /\ resolve d dn = h /\ get_node d dn = get_node d h /\
+            forall fuel, map (render_clause fuel d) (define_children (get_node d dn)) = abs fuel d (FU f, length a).
+Proof.
+  intros gm ops q d i f a dn E Hn.
+  assert (H : WFc d).
+  { apply (WFc_suffix q). rewrite <- E. apply reachable_wf. }
+  assert (Hg : get_node d i = NCall (FU f) a dn).
+  { rewrite get_node_raw_stable; [exact Hn|exact H|]. rewrite Hn.
+    intros [Hx|[f0 [a0 [ch Hx]]]]; discriminate Hx. }
+  split; [exact Hg|]. apply (redirect_sound gm ops q d i f a dn E Hg).
+Qed.
+
 Theorem call_resolves_reachable : forall gm ops i, call_resolves (run gm ops root0) i = true.
 Proof.
   intros gm ops i. unfold call_resolves.
@@ -307,4 +344,110 @@ Proof.
   intros fuel s Hu. split.
   - rewrite E1, history_abs_g by exact Hu. rewrite S1. reflexivity.
   - unfold adds. fold ops2. rewrite history_abs_g by exact Hu. rewrite S2. reflexivity.
+Qed.
+
+(* ------------------------------------------------------------------ ... i.e. equal up to an injective renaming of the group ids *)
+Definition ren (rho : nat -> nat) (x : option (nat * nat * nat)) : option (nat * nat * nat) :=
+  match x with Some (a, b, c) => Some (rho a, rho b, rho c) | None => None end.
+
+Definition ren_clause (rho : nat -> nat) (x : rclause * option (nat * nat * nat)) := (fst x, ren rho (snd x)).
+
+Lemma specg_heads_ren : forall rho heads g1 g2 s, rho g2 = g1 ->
+  specg_heads heads g1 s = map (ren rho) (specg_heads heads g2 s).
+Proof.
+  intros rho heads g1 g2 s E. induction heads as [|[[f a] pr] t IH]; [reflexivity|]. simpl.
+  rewrite map_app, <- IH. destruct (sig_eqb s (FU f, length a)); simpl; rewrite ?E; reflexivity.
+Qed.
+
+Lemma specG_ren : forall rho st g1 g2 s, (is_ad st = true -> rho g2 = g1) ->
+  specG g1 st s = map (ren rho) (specG g2 st s).
+Proof.
+  intros rho [f a pr|f a b vc|heads b vc|f ar] g1 g2 s H; simpl.
+  - destruct (sig_eqb s (FU f, length a)); reflexivity.
+  - destruct (sig_eqb s (FU f, length a)); reflexivity.
+  - apply specg_heads_ren. apply H. reflexivity.
+  - reflexivity.
+Qed.
+
+Lemma specGs_ren : forall rho tz1 tz2, map fst tz1 = map fst tz2 ->
+  (forall g2 g1, In (g2, g1) (combine (ad_tags tz2) (ad_tags tz1)) -> rho g2 = g1) ->
+  forall s, specGs tz1 s = map (ren rho) (specGs tz2 s).
+Proof.
+  intros rho tz1. induction tz1 as [|[st g1] t1 IH]; intros [|[st' g2] t2] E H s; try discriminate E; [reflexivity|].
+  simpl in E. inversion E as [[E1 E2]]. subst st'.
+  unfold specGs. simpl. rewrite map_app. f_equal.
+  - apply specG_ren. intros Ha. apply H. unfold ad_tags. simpl. rewrite Ha. left. reflexivity.
+  - apply IH; [exact E2|]. intros a b Hin. apply H. unfold ad_tags in *. simpl.
+    destruct (is_ad st); [right|]; exact Hin.
+Qed.
+
+Lemma lookup_combine : forall a b k v, NoDup a -> In (k, v) (combine a b) -> redir_get (combine a b) k = v.
+Proof.
+  induction a as [|x a IH]; intros [|y b] k v Hn Hin; try destruct Hin. 
+  - inversion H; subst. simpl. rewrite Nat.eqb_refl. reflexivity.
+  - simpl. inversion Hn; subst. destruct (Nat.eqb_spec k x) as [->|Hne].
+    + exfalso. apply H2. eapply in_combine_l; eauto.
+    + apply IH; assumption.
+Qed.
+
+Lemma lookup_in : forall a b k, In k a -> length a <= length b -> In (redir_get (combine a b) k) b.
+Proof.
+  induction a as [|x a IH]; intros [|y b] k Hin Hl; simpl in *; try contradiction; try lia.
+  destruct (Nat.eqb_spec k x); [left; reflexivity|]. right. destruct Hin as [->|Hin]; [contradiction|].
+  apply IH; [exact Hin|lia].
+Qed.
+
+Lemma lookup_inj : forall a b x y, NoDup b -> length a = length b -> In x a -> In y a ->
+  redir_get (combine a b) x = redir_get (combine a b) y -> x = y.
+Proof.
+  induction a as [|x0 a IH]; intros [|y0 b] x y Hb Hl Hx Hy E; simpl in *; try contradiction; try discriminate.
+  inversion Hb; subst. injection Hl as Hl.
+  destruct (Nat.eqb_spec x x0) as [->|Nx]; destruct (Nat.eqb_spec y x0) as [->|Ny]; try reflexivity.
+  - exfalso. destruct Hy as [Hy|Hy]; [congruence|]. apply H1. rewrite E. apply lookup_in; [exact Hy|lia].
+  - exfalso. destruct Hx as [Hx|Hx]; [congruence|]. apply H1. rewrite <- E. apply lookup_in; [exact Hx|lia].
+  - destruct Hx as [Hx|Hx]; [congruence|]. destruct Hy as [Hy|Hy]; [congruence|]. eapply IH; eauto.
+Qed.
+
+Lemma ad_tags_length : forall tz1 tz2, map fst tz1 = map fst tz2 -> length (ad_tags tz1) = length (ad_tags tz2).
+Proof.
+  induction tz1 as [|[st g1] t1 IH]; intros [|[st' g2] t2] E; try discriminate E; [reflexivity|].
+  simpl in E. inversion E as [[E1 E2]]. subst st'. unfold ad_tags in *. simpl.
+  destruct (is_ad st); simpl; rewrite (IH t2 E2); reflexivity.
+Qed.
+
+Lemma combine_map_r : forall A B C (f : B -> C) (x : list A) (y : list B),
+  combine x (map f y) = map (fun p => (fst p, f (snd p))) (combine x y).
+Proof. induction x; intros [|b y]; simpl; try reflexivity. rewrite IHx. reflexivity. Qed.
+
+(* `rho` renames the group ids the union program uses (ad_tags of its history, see history_groups) into
+   those of the extension, injectively: the two partitions of the AD alternatives coincide *)
+Theorem extend_union_groups_renaming : forall P cs,
+  exists rho : nat -> nat,
+    (forall fuel s, is_user s ->
+       abs_g fuel (adds GGlobal cs (extend (adds GGlobal P root0))) s
+       = map (ren_clause rho) (abs_g fuel (adds GGlobal (P ++ cs) root0) s)) /\
+    (forall x y, In x (ad_tags (tagsz GGlobal (map OAdd (P ++ cs)) root0)) ->
+                 In y (ad_tags (tagsz GGlobal (map OAdd (P ++ cs)) root0)) -> rho x = rho y -> x = y).
+Proof.
+  intros P cs.
+  set (ops1 := map OAdd P ++ OExtend :: map OAdd cs).
+  set (ops2 := map OAdd (P ++ cs)).
+  set (tz1 := tagsz GGlobal ops1 root0). set (tz2 := tagsz GGlobal ops2 root0).
+  assert (E1 : adds GGlobal cs (extend (adds GGlobal P root0)) = run GGlobal ops1 root0).
+  { unfold ops1, adds, run. rewrite fold_left_app. reflexivity. }
+  assert (S1 : stmts_of ops1 = P ++ cs).
+  { unfold ops1. rewrite stmts_of_app. simpl. rewrite !stmts_of_adds. reflexivity. }
+  assert (S2 : stmts_of ops2 = P ++ cs) by (apply stmts_of_adds).
+  assert (Ef : map fst tz1 = map fst tz2).
+  { unfold tz1, tz2. rewrite !tagsz_stmts, S1, S2. reflexivity. }
+  assert (N1 : NoDup (ad_tags tz1)) by (apply ad_tags_fresh; discriminate).
+  assert (N2 : NoDup (ad_tags tz2)) by (apply ad_tags_fresh; discriminate).
+  exists (redir_get (combine (ad_tags tz2) (ad_tags tz1))). split.
+  - intros fuel s Hu. rewrite E1. unfold adds. fold ops2.
+    rewrite !history_abs_g by exact Hu. rewrite S1, S2. fold tz1 tz2.
+    rewrite (specGs_ren (redir_get (combine (ad_tags tz2) (ad_tags tz1))) tz1 tz2 Ef).
+    + apply combine_map_r.
+    + intros g2 g1 Hin. apply lookup_combine; assumption.
+  - intros x y Hx Hy E. eapply lookup_inj; [exact N1| |exact Hx|exact Hy|exact E].
+    symmetry. apply ad_tags_length. exact Ef.
 Qed.
